@@ -382,16 +382,40 @@ def check_nuc_wrapper(repo, f, R, inputs_rule=False):
     rets = [n for n in ast.walk(fn) if isinstance(n, ast.Return)]
     if len(rets) != 1:
         raise AnalysisError("DISPATCH", "nuclear_electron_attraction_integral: expected a single return", f.where())
-    v = rets[0].value
+    from ..astutil import Defs as _Defs
+    D_ = _Defs(fn)
+
+    def res(n, depth=0):
+        while isinstance(n, ast.Name) and depth < 5:
+            d_ = D_.single_assign(n.id)
+            if d_ is None:
+                break
+            n = d_
+            depth += 1
+        return n
+    v = res(rets[0].value)
     p = f.params
-    ok = isinstance(v, ast.Call) and ast.unparse(v.func) in ("np.sum", "numpy.sum") and isinstance(v.args[0], ast.Call) and \
-        ast.unparse(v.args[0].func) == "point_charge_integral"
-    if not ok:
+    # np.sum(X, axis=2) or X.sum(axis=2) with X = point_charge_integral(...), possibly through named temporaries
+    inner = None
+    axis = None
+    if isinstance(v, ast.Call) and ast.unparse(v.func) in ("np.sum", "numpy.sum") and v.args:
+        inner = res(v.args[0])
+        axis = [ast.unparse(k.value) for k in v.keywords if k.arg == "axis"] + [ast.unparse(a) for a in v.args[1:]]
+    elif isinstance(v, ast.Call) and isinstance(v.func, ast.Attribute) and v.func.attr == "sum":
+        inner = res(v.func.value)
+        axis = [ast.unparse(k.value) for k in v.keywords if k.arg == "axis"] + [ast.unparse(a) for a in v.args]
+    if not (isinstance(inner, ast.Call) and ast.unparse(inner.func) == "point_charge_integral"):
         raise AnalysisError("DISPATCH", "nuclear wrapper idiom not recognised", f.where(rets[0]))
-    inner = v.args[0]
-    got = [ast.unparse(a) for a in inner.args] + [f"{k.arg}={ast.unparse(k.value)}" for k in inner.keywords]
-    R.check(got == [p[0], p[1], p[2], "transform=transform"], "DISPATCH", f.site, "point_charge_integral(" + ", ".join(got) + ")",
-            "all four arguments must be forwarded to point_charge_integral", where=f.where(inner), expected=[p[0], p[1], p[2], "transform=transform"], found=got)
+    callee = repo.func("gbasis.integrals.point_charge.point_charge_integral")
+    bound = dict(zip(callee.params, [ast.unparse(a) for a in inner.args]))
+    for k in inner.keywords:
+        if k.arg is not None:
+            bound[k.arg] = ast.unparse(k.value)
+    want = dict(zip(callee.params[:3], p[:3]))
+    want["transform"] = "transform"
+    got = {k: bound.get(k) for k in want}
+    R.check(got == want and set(bound) <= set(want), "DISPATCH", f.site, "point_charge_integral(" + ", ".join(f"{k}={v_}" for k, v_ in bound.items()) + ")",
+            "all four arguments must be forwarded to point_charge_integral", where=f.where(inner), expected=want, found=bound)
     # the forwarded names must still be the caller's arrays: any rebinding on any path has to be value-preserving; a boolean
     # filter applied to coordinates and charges alike may only drop zero charges (the sum is linear in the charges)
     from ..formula import rebound_inputs, strip_restrict, selection_keeps_all_relevant, classify_rebinding
@@ -412,6 +436,5 @@ def check_nuc_wrapper(repo, f, R, inputs_rule=False):
             why = f"`{name}` is replaced by another value before it reaches point_charge_integral"
         R.check(same, "DISPATCH", f.site, "forwarded input " + ast.unparse(st)[:80], why, where=f.where(st),
                 expected=f"{name} forwarded unchanged (or only zero charges skipped)", found=str(val)[:100])
-    axis = [ast.unparse(k.value) for k in v.keywords if k.arg == "axis"] + [ast.unparse(a) for a in v.args[1:]]
     R.check(axis == ["2"], "DISPATCH", f.site, "np.sum(..., axis=2)", "the nuclear attraction is the sum over the point-charge axis (axis 2)",
             where=f.where(v), expected="axis=2", found=axis)
